@@ -27,6 +27,7 @@ def r19_text(chk):
                 a = a2mlread.structure_of_tree(s["input"])
             except a2mlread.A2mlError as e:
                 raise common.EngineFailure("reference invocation %s is not readable: %s" % (key, e))
+            constructs |= a2mlread.constructs(a)
             texts = [(nm, v) for nm, v in s["consts"].items() if nm.endswith("_TEXT")]
             if len(texts) != 1:
                 chk.add(Finding("R19-text", "R19-text::no-constant::" + key, "the expansion of %s has %d *_TEXT constants (expected one A2ML text constant)" % (key, len(texts)), "a2lmacros/src/a2mlspec.rs"))
@@ -38,7 +39,6 @@ def r19_text(chk):
                 chk.add(Finding("R19-text", "R19-text::unreadable::" + key, "%s generated for %s is not well-formed A2ML: %s" % (nm, key, e), "a2lmacros/src/a2mlspec.rs"))
                 continue
             n += a2mlread.count_nodes(a)
-            constructs |= a2mlread.constructs(a)
             df = a2mlread.diff(a, b)
             if df:
                 chk.add(Finding("R19-text", "R19-text::differs::" + key + "::" + df.split(":")[0], "%s generated for %s does not describe the structure of the macro input: %s (input vs text)" % (nm, key, df), "a2lmacros/src/a2mlspec.rs"))
